@@ -38,7 +38,11 @@ BadType == /\ stage = "build" /\ Len(raw.vals) \in 1..2
            /\ \E k \in {"str", "float", "tuple", "set", "none", "strlist", "dict"} :
                   raw' = [raw EXCEPT !.fault = "badtype", !.kind = k]
            /\ cut' = 0 /\ stage' = "done"
-Next == AddStep \/ Finish \/ Duplicate \/ Fraction \/ BadType
+\* time points (periods, dates) are values an ABSOLUTE horizon may hold; given as steps of a relative one they are of the wrong type
+BadTypeRel == /\ stage = "build" /\ Len(raw.vals) \in 1..2
+              /\ \E k \in {"period", "datetime"} : raw' = [raw EXCEPT !.fault = "badtype", !.kind = k, !.rel = TRUE]
+              /\ cut' = 0 /\ stage' = "done"
+Next == AddStep \/ Finish \/ Duplicate \/ Fraction \/ BadType \/ BadTypeRel
 Spec == Init /\ [][Next]_vars
 
 Done == stage = "done"
